@@ -67,6 +67,10 @@ func KVMetadataToProto(md *store.KVMetadata) *KVMetadata {
 }
 
 func TxFromProto(stx *Tx) *store.Tx {
+	if stx == nil || stx.Header == nil || int(stx.Header.Nentries) != len(stx.Entries) {
+		return nil
+	}
+
 	header := &store.TxHeader{}
 	header.ID = stx.Header.Id
 	header.Ts = stx.Header.Ts
@@ -84,6 +88,9 @@ func TxFromProto(stx *Tx) *store.Tx {
 	header.Eh = DigestFromProto(stx.Header.EH)
 
 	for i, e := range stx.Entries {
+		if e == nil {
+			return nil
+		}
 		entries[i] = store.NewTxEntry(e.Key, KVMetadataFromProto(e.Metadata), int(e.VLen), DigestFromProto(e.HValue), 0)
 	}
 
@@ -121,6 +128,9 @@ func InclusionProofToProto(iproof *htree.InclusionProof) *InclusionProof {
 }
 
 func InclusionProofFromProto(iproof *InclusionProof) *htree.InclusionProof {
+	if iproof == nil {
+		return nil
+	}
 	return &htree.InclusionProof{
 		Leaf:  int(iproof.Leaf),
 		Width: int(iproof.Width),
@@ -211,6 +221,9 @@ func LinearAdvanceProofToProto(proof *store.LinearAdvanceProof) *LinearAdvancePr
 }
 
 func DualProofFromProto(dproof *DualProof) *store.DualProof {
+	if dproof == nil {
+		return nil
+	}
 	return &store.DualProof{
 		SourceTxHeader:     TxHeaderFromProto(dproof.SourceTxHeader),
 		TargetTxHeader:     TxHeaderFromProto(dproof.TargetTxHeader),
@@ -224,6 +237,9 @@ func DualProofFromProto(dproof *DualProof) *store.DualProof {
 }
 
 func DualProofV2FromProto(dproof *DualProofV2) *store.DualProofV2 {
+	if dproof == nil {
+		return nil
+	}
 	return &store.DualProofV2{
 		SourceTxHeader:   TxHeaderFromProto(dproof.SourceTxHeader),
 		TargetTxHeader:   TxHeaderFromProto(dproof.TargetTxHeader),
@@ -233,6 +249,9 @@ func DualProofV2FromProto(dproof *DualProofV2) *store.DualProofV2 {
 }
 
 func TxHeaderFromProto(hdr *TxHeader) *store.TxHeader {
+	if hdr == nil {
+		return nil
+	}
 	return &store.TxHeader{
 		ID:       hdr.Id,
 		PrevAlh:  DigestFromProto(hdr.PrevAlh),
@@ -262,6 +281,9 @@ func TxMetadataFromProto(md *TxMetadata) *store.TxMetadata {
 }
 
 func LinearProofFromProto(lproof *LinearProof) *store.LinearProof {
+	if lproof == nil {
+		return nil
+	}
 	return &store.LinearProof{
 		SourceTxID: lproof.SourceTxId,
 		TargetTxID: lproof.TargetTxId,
@@ -276,7 +298,9 @@ func LinearAdvanceProofFromProto(laproof *LinearAdvanceProof) *store.LinearAdvan
 
 	inclusionProofs := make([][][sha256.Size]byte, len(laproof.InclusionProofs))
 	for i, proof := range laproof.InclusionProofs {
-		inclusionProofs[i] = DigestsFromProto(proof.Terms)
+		if proof != nil {
+			inclusionProofs[i] = DigestsFromProto(proof.Terms)
+		}
 	}
 
 	return &store.LinearAdvanceProof{
